@@ -243,6 +243,9 @@ class NPShim:
         return np.full(shape, fill, *a, **k)
 
     def array(self, x, *a, **k):
+        # symbolic reals model float64 values: an explicit float dtype keeps the symbolic entries
+        if has_sym(x) and not a and k.get('dtype') in (float, np.float64, 'float', 'float64', 'f8', 'd', object):
+            k = {kk: vv for kk, vv in k.items() if kk != 'dtype'}
         if has_sym(x) and 'dtype' not in k and not a:
             if isinstance(x, np.ndarray):
                 return x.copy()
